@@ -145,15 +145,25 @@ def _run(i, rng, tier, neutralise):
     wit = {"tree": S.describe(sp), "spec": sp, "stream": C.stream_json(stream), "state": kind}
 
     h = C.fill_all(S.build(sp), stream)
+    items = list(stream)  # ghost multiset of the state (None: not modelled)
     if kind == "add":
         h = h + C.fill_all(S.build(sp), stream[: len(stream) // 2])
+        items = items + stream[: len(stream) // 2]
     elif kind == "scale" and not S.has_transform(sp):
-        h = h * rng.choice([0.5, 2.0, 3])
+        fsc = rng.choice([0.5, 2.0, 3, float("inf")])  # inf: entries inf, empty nodes 0 * inf = NaN (reachable by *)
+        h = h * fsc
+        items = [(r, w * fsc) for r, w in items if R.gate(w)] if fsc != float("inf") else None
     elif kind == "copy":
         h = h.copy()
     elif kind == "merge2":
-        g = C.fill_all(S.build(sp), S.gen_stream(rng, sp, rng.randint(0, 6)))
+        gs = S.gen_stream(rng, sp, rng.randint(0, 6))
+        if neutralise:
+            gs = [(dict(r, c=str(r["c"]) if isinstance(r["c"], bool) else r["c"]), w) for r, w in gs]
+        g = C.fill_all(S.build(sp), gs)
         h = g + h
+        items = gs + items
+    if numpy_rows or S.has_transform(sp) and kind == "scale":
+        items = None
 
     def bad(msg, **kw):
         failures.append(C.fail(None, msg, **dict(wit, **kw)))
@@ -167,6 +177,14 @@ def _run(i, rng, tier, neutralise):
         return {"failures": failures, "counters": counters, "sets": sets, "digest": C.digest(sp, stream, kind), "nontrivial": False, "bool_categories": has_bool}
     doc = json.loads(dtext)
     canon = _txt(doc)
+
+    # 1b. the document says what the specification says about this state - in particular every quantity name, which a
+    # reload cannot restore if the document has already lost it
+    if items is not None:
+        ok, dm, _, inc = R.match(sp, items, O.observe(h), O.scale_of(items) if items else 1.0)
+        counters["documents_compared_with_model"] = 1
+        if not ok and not inc:
+            bad("the document differs from the specified content / names of this state: %s" % C.fmt_diff(dm))
 
     # 2. three reload routes
     reloads = {}
